@@ -1,6 +1,8 @@
 """C03 -- shortest-path distance matrices equal true minimum path lengths."""
 import numpy as np
 
+from ..monitor import CaseTimeout
+
 from .. import graphs as G
 from .. import oracles as O
 from .common import call, close, dtype_variants_agree, layout_variants_agree, padding_invariant
@@ -24,7 +26,7 @@ REQUIRED = ['distance_bin/distances', 'distance_wei/distances', 'distance_wei/ho
             'distance_wei_floyd/hop_counts', 'breadthdist/distances', 'breadthdist/reach_flag', 'reachdist/distances',
             'reachdist/reach_flag', 'charpath/lambda', 'charpath/efficiency', 'efficiency_bin/global',
             'efficiency_wei/global', 'rout_efficiency/global', 'rout_efficiency/pairwise']
-CASE_TIMEOUT = {'quick': 30.0, 'thorough': 120.0}
+CASE_TIMEOUT = {'quick': 30.0, 'thorough': 900.0}
 
 
 
@@ -71,6 +73,10 @@ def cases(tier, seed):
         out.append({'g': g, 'directed': g[-1] is True, 'ws': 1, 'schemes': ['bin', 'int']})
     out.append({'kind': 'degenerate', 'g': ['named', 'path', 2], 'directed': False, 'ws': 0, 'schemes': []})
     out.append({'kind': 'concurrent', 'g': ['named', 'path', 2], 'directed': False, 'ws': seed, 'schemes': [], 'n': 110 if tier == 'thorough' else 60})
+    if thorough:
+        # a directed chain just below the depth at which reachdist's own recursion gives out (about 985 with the default
+        # recursion limit): three minutes for one call, the only way to see what happens near that limit
+        out.append({'kind': 'deep_chain', 'g': ['named', 'path', 2], 'directed': True, 'ws': 0, 'schemes': [], 'n': 940})
     return out
 
 
@@ -264,6 +270,28 @@ def check_weights(REC, bct, A, W, directed):
 
 
 def run(case, bct, REC):
+    if case.get('kind') == 'deep_chain':
+        from ..monitor import raw
+        n = case['n']
+        A = np.zeros((n, n))
+        A[np.arange(n - 1), np.arange(1, n)] = 1
+        REC.tag(PROP, 'exec')
+        try:
+            R, D = raw(bct.reachdist)(A)      # unmonitored on purpose: one call takes minutes, the history layer would repeat it
+        except CaseTimeout:
+            raise
+        except Exception as e:  # noqa
+            REC.check(PROP, 'reachdist', 'returns', False, {'n': n, 'exception': repr(e)[:200]}, ('deep_chain',))
+            return
+        idx = np.arange(n)
+        E = np.where(idx[None, :] > idx[:, None], (idx[None, :] - idx[:, None]).astype(float), np.inf)
+        np.fill_diagonal(E, 0)
+        Dn = np.asarray(D, dtype=float).copy()
+        np.fill_diagonal(Dn, 0)
+        REC.check(PROP, 'reachdist', 'distances', bool(np.array_equal(Dn, E)), {'n': n, 'first_row_tail': Dn[0, -5:]}, ('deep_chain',))
+        REC.check(PROP, 'reachdist', 'reach_flag', bool(np.array_equal(np.asarray(R)[~np.eye(n, dtype=bool)] != 0, np.isfinite(E)[~np.eye(n, dtype=bool)])), {'n': n}, ('deep_chain',))
+        REC.note_nontrivial(PROP, 'deep_chain', n)
+        return
     if case.get('kind') == 'concurrent':
         from .common import concurrent_callers_agree
         REC.tag(PROP, 'exec')
